@@ -31,6 +31,9 @@ CONFIGS = [(1, 0), (2, 0), (3, 1), (4, 1), (5, 2), (7, 3), (7, 1), (5, 0), (6, 2
 
 def shards(tier, seed):
     out = [{'name': f'secfld-m{m}t{t}', 'kind': 'secfld', 'm': m, 't': t} for (m, t) in (CONFIGS if tier == 'quick' else [(m, t) for m in range(1, 8) for t in range(0, (m + 1) // 2) if 2 * t < m])]
+    # the same grid on runtimes that were constructed with another threshold and got t through the public setter (as demos/parallelsort.py does)
+    for (m, t, t0) in [(3, 1, 0), (5, 2, 0), (4, 1, 0), (5, 0, 2), (7, 3, 1)]:
+        out.append({'name': f'secfld-m{m}t{t}-assigned-from-t{t0}', 'kind': 'secfld', 'm': m, 't': t, 't0': t0})
     out.append({'name': 'setup', 'kind': 'setup'})
     out.append({'name': 'setup-noprss', 'kind': 'setup', 'extra': ['--no-prss']})
     out.append({'name': 'setup-K0', 'kind': 'setup', 'extra': ['-K', '0']})
@@ -140,7 +143,12 @@ def run(shard, rec):
     m, t = shard['m'], shard['t']
     if shard['kind'] == 'types':
         return run_types(shard, rec, sim, m, t)
-    w = sim.World(m, t, seed=1)
+    w = sim.World(m, shard.get('t0', t), seed=1)
+    if 't0' in shard:
+        for i in range(m):
+            w.ctx[i].run(setattr, w.rts[i], 'threshold', t)
+        w.t = t
+        rec.count('worlds_with_threshold_assigned')
     results = []
 
     def body():
@@ -222,7 +230,12 @@ def run_types(shard, rec, sim, m, t):
     has a field with more elements than there are parties whenever t > 0 (else party number q would hold the secret itself as its share)"""
     PRIMES = [3, 5, 7, 11, 13, 17, 19, 23, 31, 61, 127, 257, 65537, 2 ** 31 - 1, 2 ** 61 - 1]
     for k in (0, 1, 2, 8, 30):
-        w = sim.World(m, t, seed=1, sec_param=k)
+        assigned = k in (1, 8) and t > 0
+        w = sim.World(m, 0 if assigned else t, seed=1, sec_param=k)
+        if assigned:                              # constructed with threshold 0, then t assigned through the public setter
+            for i in range(m):
+                w.ctx[i].run(setattr, w.rts[i], 'threshold', t)
+            w.t = t
         built = []
 
         def body():
